@@ -23,6 +23,10 @@
 #[derive(kani::Arbitrary)]
 //@end
 
+//@attach core/src/pixelcolor/binary_color.rs :: pub enum BinaryColor {
+#[derive(kani::Arbitrary)]
+//@end
+
 //@append core/src/lib.rs
 /// Specification functions shared by all contract overlays (mathematical integers are
 /// modelled by i64/i128; Kani checks these for overflow too, so a spec cannot wrap silently).
